@@ -135,10 +135,29 @@ def r2(ctx):
         ve = s.stmt.value
         fl = Flow(ana, upd)
         hops = 0
+        def uncopy(e_):
+            # list(x), tuple(x), sorted(x), copy.copy(x), x[:] of a bucket hold the bucket's points (buckets are filled in index
+            # order, so sorting changes nothing; the setter stores its own sorted list anyway)
+            while True:
+                if isinstance(e_, ast.Call) and len(e_.args) == 1 and not e_.keywords:
+                    r_ = ana.res.fq_of_expr(upd, e_.func)
+                    if r_ and r_[1] in ("builtins.list", "builtins.tuple", "builtins.sorted", "copy.copy", "copy.deepcopy"):
+                        e_ = e_.args[0]
+                        continue
+                if isinstance(e_, ast.Subscript) and isinstance(e_.slice, ast.Slice) and e_.slice.lower is None and e_.slice.upper is None \
+                        and e_.slice.step is None:
+                    e_ = e_.value
+                    continue
+                return e_
+        ve = uncopy(ve)
         while isinstance(ve, ast.Name) and hops < 5:
             d = fl.sole_def(ve.id, fl.at(ve))
-            ve = d.ast.value if d is not None and d.kind == "stmt" and isinstance(d.ast, ast.Assign) else None
+            ve = uncopy(d.ast.value) if d is not None and d.kind == "stmt" and isinstance(d.ast, ast.Assign) else None
             hops += 1
+        while isinstance(v, App) and v.fn in ("builtins.list", "builtins.tuple", "builtins.sorted", "copy.copy", "copy.deepcopy") and len(v.args) == 1 and not v.kw:
+            v = v.args[0]
+        if isinstance(v, Idx) and len(v.idx) == 1 and isinstance(v.idx[0], tm.Slc) and v.idx[0].lo is None and v.idx[0].hi is None and v.idx[0].step is None:
+            v = v.base
         okv = isinstance(ve, ast.Subscript) and isinstance(ve.value, ast.Name) and isinstance(v, Idx) and v.idx == (k,)
         ctx.check(okv, upd, "cluster k receives the bucket collected for label k", line=s.stmt.lineno, role="refresh:bucket", expected="members[k]", found=str(v))
         if okv:
